@@ -20,6 +20,8 @@ type MS struct {
 	Ref        string        `json:"ref,omitempty"`
 	Ty         string        `json:"ty,omitempty"`
 	Format     string        `json:"-"` // string formats (C05 only; the Lean semantics reads a formatted string as a string)
+	Discrim    string        `json:"-"` // discriminator property of a polymorphic base type (C05 probes only)
+	XClass     string        `json:"-"` // x-class: the discriminator value of a subtype
 	Nullable   bool          `json:"nullable,omitempty"`
 	ReadOnly   bool          `json:"readOnly,omitempty"`
 	HasDefault bool          `json:"hasDefault,omitempty"`
@@ -60,6 +62,12 @@ func (s *MS) Render() map[string]interface{} {
 	}
 	if s.Format != "" {
 		m["format"] = s.Format
+	}
+	if s.Discrim != "" {
+		m["discriminator"] = s.Discrim
+	}
+	if s.XClass != "" {
+		m["x-class"] = s.XClass
 	}
 	if s.Nullable {
 		m["x-nullable"] = true
@@ -634,6 +642,18 @@ func modelsRun(run *ev.Run, which string) {
 			dm[kv.K] = kv.V
 			g.defs = append(g.defs, kv.K)
 		}
+		if which == "C05" {
+			// a polymorphic hierarchy (discriminator `type`; one subtype names its value with x-class): reached through hand-made
+			// probes only, the random stream does not know which discriminator values exist
+			animal := &MS{Ty: "object", Discrim: "type", Required: []string{"type", "name"}, Props: []MKV{{K: "type", V: &MS{Ty: "string"}}, {K: "name", V: &MS{Ty: "string"}}}}
+			dog := &MS{AllOf: []*MS{{Ref: "Animal"}, {Ty: "object", Props: []MKV{{K: "bark", V: &MS{Ty: "boolean"}}}}}}
+			cat := &MS{XClass: "feline", AllOf: []*MS{{Ref: "Animal"}, {Ty: "object", Props: []MKV{{K: "claws", V: &MS{Ty: "integer"}}}}}}
+			zoo := &MS{Ty: "object", Props: []MKV{{K: "star", V: &MS{Ref: "Animal"}}, {K: "all", V: &MS{Ty: "array", Items: &MS{Ref: "Animal"}}}}}
+			for _, kv := range []MKV{{K: "Animal", V: animal}, {K: "Dog", V: dog}, {K: "Cat", V: cat}, {K: "Zoo", V: zoo}} {
+				defs = append(defs, kv)
+				dm[kv.K] = kv.V
+			}
+		}
 		// keep $ref cycles out of required chains: instances are built with a depth bound anyway
 		specDoc := modelSpec(defs)
 		mb, err := BuildModels("c02", specDoc)
@@ -667,6 +687,11 @@ func modelsRun(run *ev.Run, which string) {
 			{"Gauge", map[string]interface{}{"gain": 2.0, "level": int64(2), "gains": []interface{}{1.5}}},
 			{"Bag", map[string]interface{}{"k1": map[string]interface{}{"kind": "x", "size": int64(2), "extra1": int64(7)}}},
 			{"Elem", map[string]interface{}{"kind": "x", "extra1": int64(7), "extra2": int64(8)}},
+		}
+		if which == "C05" {
+			tom := map[string]interface{}{"type": "feline", "name": "tom", "claws": int64(3)}
+			rex := map[string]interface{}{"type": "Dog", "name": "rex", "bark": true}
+			probes = append(probes, probe{"Cat", tom}, probe{"Dog", rex}, probe{"Zoo", map[string]interface{}{"star": tom, "all": []interface{}{rex, tom}}})
 		}
 		for ii := -len(probes); ii < total; ii++ {
 			def := g.defs[g.r.Intn(len(g.defs))]
@@ -768,7 +793,7 @@ func modelsRun(run *ev.Run, which string) {
 					st["format-definition-mutation-skipped"]++
 					continue
 				}
-				if what == "valid-by-construction" && sc.Valid && !resp.Decoded {
+				if (what == "valid-by-construction" || what == "probe") && sc.Valid && !resp.Decoded {
 					// a document that is valid by construction must at least decode: a failing json.Unmarshal loses everything
 					st["VALID-DOES-NOT-DECODE"]++
 					run.Case(def + "|" + string(doc))
